@@ -526,3 +526,145 @@ func c06ThroughCells(v ssa.Value) ssa.Value {
 	}
 	return stripPtr(v)
 }
+
+// ---- seventh round: a genome that is assembled in place instead of by a constructor call ----
+
+// c06GenomeLit is a genome that fn allocates itself and initialises field by field: `&Genome{Id: …, Traits: …}`,
+// i.e. the body of the genome constructor written out where the pinned tree calls it. vals holds the value stored
+// into each field; a field without entry keeps its zero value.
+type c06GenomeLit struct {
+	alloc  *ssa.Alloc
+	vals   map[*types.Var]ssa.Value
+	stores []*ssa.Store
+}
+
+// c06GenomeLits lists the genomes that fn allocates. A literal is `valid` (returned in lits) only when its stores
+// are the object's whole history inside fn, so that the stored values ARE the fields of the genome the caller gets:
+//
+//   - every use of the allocation takes the address of one of its fields or hands the object to the caller (a
+//     Return, directly or through phis / conversions that are only returned): the object is not passed to a call,
+//     not stored anywhere, not captured - nobody else can write it before it leaves fn;
+//   - a field address is used for stores to that field and loads only (the address does not escape either);
+//   - every field is stored at most once, and every store stands in the block of the allocation (straight-line
+//     initialisation: all stores have happened on every path on which the object is returned).
+//
+// Every other allocation of a Genome is returned in `other`; a rule that needs to know what a function returns
+// must not ignore those (fail closed).
+func c06GenomeLits(p *Prog, fn *ssa.Function) (lits []c06GenomeLit, other []*ssa.Alloc) {
+	if fn == nil {
+		return nil, nil
+	}
+	gfields := p.Fields(PkgG, "Genome")
+	Instrs(fn, func(_ *ssa.BasicBlock, _ int, in ssa.Instruction) {
+		al, ok := in.(*ssa.Alloc)
+		if !ok || fieldOf(al.Type(), 0) != gfields[0] {
+			return
+		}
+		lit := c06GenomeLit{alloc: al, vals: map[*types.Var]ssa.Value{}}
+		valid := al.Referrers() != nil
+		if valid {
+			for _, ref := range *al.Referrers() {
+				switch x := ref.(type) {
+				case *ssa.FieldAddr:
+					f := fieldOf(al.Type(), x.Field)
+					if x.X != ssa.Value(al) || x.Referrers() == nil {
+						valid = false
+						break
+					}
+					for _, rr := range *x.Referrers() {
+						switch y := rr.(type) {
+						case *ssa.Store:
+							if y.Addr != ssa.Value(x) || y.Val == ssa.Value(x) || y.Block() != al.Block() {
+								valid = false
+							} else if _, twice := lit.vals[f]; twice {
+								valid = false
+							} else {
+								lit.vals[f] = y.Val
+								lit.stores = append(lit.stores, y)
+							}
+						case *ssa.UnOp:
+							if y.Op != token.MUL {
+								valid = false
+							}
+						case *ssa.DebugRef:
+						default:
+							valid = false
+						}
+					}
+				case *ssa.DebugRef:
+				default:
+					if !c06OnlyReturned(ref, 0) {
+						valid = false
+					}
+				}
+			}
+		}
+		if valid {
+			lits = append(lits, lit)
+		} else {
+			other = append(other, al)
+		}
+	})
+	return lits, other
+}
+
+// c06OnlyReturned: instruction `use` (a user of an object) does nothing with the object but return it: it is a
+// Return, or a phi / type conversion all of whose users are.
+func c06OnlyReturned(use ssa.Instruction, depth int) bool {
+	switch x := use.(type) {
+	case *ssa.Return, *ssa.DebugRef:
+		return true
+	case *ssa.Phi:
+		return depth < 6 && c06UsersOnlyReturn(x, depth)
+	case *ssa.ChangeType:
+		return depth < 6 && c06UsersOnlyReturn(x, depth)
+	}
+	return false
+}
+
+func c06UsersOnlyReturn(v ssa.Value, depth int) bool {
+	if v.Referrers() == nil {
+		return false
+	}
+	for _, ref := range *v.Referrers() {
+		if !c06OnlyReturned(ref, depth+1) {
+			return false
+		}
+	}
+	return true
+}
+
+// c06ReturnedOutside: the non-nil values that fn can return as result `res` and that are not among `known`
+// (compared after stripping value-preserving conversions), each with the Return that yields it. Alternatives of a phi
+// are narrowed by the branch outcomes that dominate the Return.
+func c06ReturnedOutside(fn *ssa.Function, res int, known map[ssa.Value]bool) (out []ssa.Value, at []*ssa.Return) {
+	for _, b := range fn.Blocks {
+		if len(b.Instrs) == 0 {
+			continue
+		}
+		ret, ok := b.Instrs[len(b.Instrs)-1].(*ssa.Return)
+		if !ok || len(ret.Results) <= res {
+			continue
+		}
+		for _, alt := range NarrowAt(ret.Results[res], b) {
+			alt = stripPtr(alt)
+			if k, isK := alt.(*ssa.Const); isK && k.Value == nil {
+				continue
+			}
+			if !known[alt] {
+				out = append(out, alt)
+				at = append(at, ret)
+			}
+		}
+	}
+	return out, at
+}
+
+func containsAlloc(as []*ssa.Alloc, a *ssa.Alloc) bool {
+	for _, x := range as {
+		if x == a {
+			return true
+		}
+	}
+	return false
+}
